@@ -209,11 +209,53 @@ package config
 //@   modifies nothing
 //@   allocates FileSystemBackUp, map
 //@   ensures[snapshot-of-disk] result1 == nil ==> snapOK(result0) && !old(allocated(result0)) && !allocated_at_entry(result0.data) && !allocated_at_entry(result0.dataMD5) && result0.data != result0.dataMD5 && forall(p, string, in(p, result0.data) <==> fsdom[p]) && forall(p, string, fsdom[p] ==> result0.data[p] == fsys[p])
-//@ extern FileSystemOperation.storeFileOnDisk
+// The operating-system calls (TRUSTED): os.Create makes the file exist and empty; os.OpenFile keeps the content of an
+// existing file unless O_TRUNC (0x200) is among the flags; writing to a file at offset 0 replaces its first bytes and
+// keeps what lies beyond them, so the result is exactly the written bytes only when the file was empty; os.Remove
+// removes the file (and reports a not-exist error when it was not there).
+//@ ghost func fileOf(f *os.File) string
+//@ ghost func overwritten(before []byte, b []byte) []byte
+//@ axiom[write-into-empty-file] forall(a, []byte, forall(b, []byte, len(a) == 0 ==> overwritten(a, b) == b))
+//@ pure os.IsNotExist
+//@ pure filepath.Dir
+//@ extern os.MkdirAll
+//@   modifies nothing
+//@ extern os.Remove
+//@   params name
 //@   modifies fsdom, fsys
+//@   ensures[removed] (result == nil || os.IsNotExist(result)) ==> !fsdom[name]
+//@   ensures[only-this-file] forall(p, string, p != name ==> fsdom[p] == old(fsdom)[p] && fsys[p] == old(fsys)[p])
+//@ extern os.Create
+//@   params name
+//@   modifies fsdom, fsys
+//@   allocates File
+//@   ensures[exists-and-empty] result1 == nil ==> result0 != nil && fileOf(result0) == name && fsdom[name] && len(fsys[name]) == 0
+//@   ensures[only-this-file] forall(p, string, p != name ==> fsdom[p] == old(fsdom)[p] && fsys[p] == old(fsys)[p])
+//@ extern os.OpenFile
+//@   params name, flag, perm
+//@   modifies fsdom, fsys
+//@   allocates File
+//@   ensures[opened] result1 == nil ==> result0 != nil && fileOf(result0) == name && fsdom[name]
+//@   ensures[truncated-only-on-request] result1 == nil && (flag / 512) % 2 == 1 ==> len(fsys[name]) == 0
+//@   ensures[content-kept-otherwise] result1 == nil && (flag / 512) % 2 == 0 && old(fsdom)[name] ==> fsys[name] == old(fsys)[name]
+//@   ensures[new-file-empty] result1 == nil && !old(fsdom)[name] ==> len(fsys[name]) == 0
+//@   ensures[only-this-file] forall(p, string, p != name ==> fsdom[p] == old(fsdom)[p] && fsys[p] == old(fsys)[p])
+//@ extern File.Write
+//@   params b
+//@   modifies fsys
+//@   ensures[written-over-the-start] result1 == nil ==> fsys[fileOf(self)] == overwritten(old(fsys)[fileOf(self)], b)
+//@   ensures[only-this-file] forall(p, string, p != fileOf(self) ==> fsys[p] == old(fsys)[p])
+//@ extern File.Close
+//@   modifies nothing
+
+//@ func (*FileSystemOperation).storeFileOnDisk
+//@   prop C08
+//@   modifies fsdom, fsys
+//@   temporaries File
 //@   ensures[written] result == nil ==> fsdom[filePath] && fsys[filePath] == content
 //@   ensures[only-this-file] forall(p, string, p != filePath ==> fsdom[p] == old(fsdom)[p] && fsys[p] == old(fsys)[p])
-//@ extern FileSystemOperation.cleanUpFile
+//@ func (*FileSystemOperation).cleanUpFile
+//@   prop C08
 //@   modifies fsdom, fsys
 //@   ensures[removed] result == nil ==> !fsdom[filePath]
 //@   ensures[only-this-file] forall(p, string, p != filePath ==> fsdom[p] == old(fsdom)[p] && fsys[p] == old(fsys)[p])
